@@ -250,6 +250,8 @@ class HistogramBase(abc.ABC):
     def _get_axis(self, name_or_index: Axis) -> int:
         """Get a zero-based index of an axis and check its existence."""
         # TODO: Add unit test
+        if isinstance(name_or_index, np.integer):
+            name_or_index = int(name_or_index)
         if isinstance(name_or_index, int):
             if name_or_index < 0 or name_or_index >= self.ndim:
                 raise ValueError(
